@@ -78,6 +78,8 @@ def dispatch (st : DState) (toks : List String) : DState × String :=
   | "S" :: "tracer-same-tree" :: _ => (st, "same")
   | ["S", "ctrender"] => (st, "ok")
   | ["S", "ctflatinv"] => (st, "ok")
+  | ["S", "ctflatown"] => (st, "ok")
+  | ["S", "attributed"] => (st, "ok")
   | ["S", "jp"] => (st, "ok")
   | ["S", "gas"] => (st, "ok")
   | ["S", "node"] => (st, "ok")
